@@ -1,14 +1,11 @@
 import GFS.Props.C11
 import GFS.Generated.RangeGo
-import GFS.Generated.ClampGo
-import GFS.Model.ParseInt
 set_option linter.unusedSimpArgs false
 set_option linter.unusedVariables false
 /-
-  The tie for C11 (and for the max-keys clamp of C04/C13/C14): the function bodies
-  re-translated from /repo on every run satisfy the same specification as the
-  hand-written model, for all inputs.  A change to range.go / util.go changes
-  `GFS.Generated.rangeGo` / `clampGo`, and these proofs are re-checked against it.
+  The tie for C11: the body of `Range()` re-translated from /repo on every run satisfies the
+  same specification as the hand-written model, for all inputs.  A change to range.go changes
+  `GFS.Generated.rangeGo`, and these proofs are re-checked against it.
 -/
 namespace GFS.Props.C11Gen
 open GFS GFS.Model GFS.Spec GFS.Generated GFS.Props.C11
@@ -40,25 +37,5 @@ theorem rangeGo_eq_model (size : Int) (o : RangeReq)
     (hs : 0 ≤ size ∧ size ≤ I64.max) (hp : ParserReq o) :
     rangeGo size o = range size o := by
   rw [rangeGo_eq_clip size o hs hp, range_eq_clip size o hs hp]
-
-/-- **clampGo_eq_model**: the clamp of `parseClampedInt` as it is in /repo now is
-    `max lo (min hi v)` for `lo ≤ hi`, and equals the model's clamp. -/
-theorem clampGo_spec (v lo hi : Int) (h : lo ≤ hi) :
-    clampGo v lo hi = some (max lo (min hi v)) := by
-  simp only [clampGo, decide_eq_true_eq]
-  repeat' split
-  all_goals simp only [Option.some.injEq]
-  all_goals omega
-
-theorem clampGo_eq_model (s : Bytes) (d lo hi : Int) :
-    parseClampedInt s d lo hi =
-      (if s.isEmpty then some d else parseInt64 s).bind (fun v => clampGo v lo hi) := by
-  unfold parseClampedInt clampGo
-  cases (if s.isEmpty then some d else parseInt64 s) with
-  | none => rfl
-  | some v =>
-    simp only [Option.bind, decide_eq_true_eq]
-    repeat' split
-    all_goals first | rfl | omega | simp_all
 
 end GFS.Props.C11Gen
